@@ -76,18 +76,31 @@ def run(ctx) -> None:
     # ---- R08b
     stop = impl.classes["StopEngineCommand"].methods["_run"]
     ctx.analysed(stop)
-    bad = None
-    n_stop = 0
-    for s in ex.reach:
-        d = sd(s)
-        if d["if_Stop"] is None or not d["started"]:
-            continue   # a Stop of an active run (Stop accepted without a run exists only after an error while stopped)
-        for t in ex.step_resume(s, "Stop"):
-            dt = sd(t)
-            if dt["if_Stop"] is None and not dt["started"]:
-                n_stop += 1
-                if dt["hw"] not in ("safe", "psafe") and bad is None:
-                    bad = (s, t)
+    def stop_completions(write_may_fail: bool):
+        saved = [e_.b.fault_before_effect for e_ in ex.exs]
+        for e_ in ex.exs:
+            e_.b.fault_before_effect = write_may_fail and e_.exact
+            e_.it._summ.clear()      # function summaries were computed under the other setting
+        bad_, n_ = None, 0
+        try:
+            for s in ex.reach:
+                d = sd(s)
+                if d["if_Stop"] is None or not d["started"]:
+                    continue   # a Stop of an active run (Stop accepted without a run exists only after an error while stopped)
+                if write_may_fail and not ex.owner.get(s, ex.exs[0]).exact:
+                    continue
+                for t in ex.step_resume(s, "Stop"):
+                    dt = sd(t)
+                    if dt["if_Stop"] is None and not dt["started"]:
+                        n_ += 1
+                        if dt["hw"] not in ("safe", "psafe") and bad_ is None:
+                            bad_ = (s, t)
+        finally:
+            for e_, v in zip(ex.exs, saved):
+                e_.b.fault_before_effect = v
+                e_.it._summ.clear()
+        return bad_, n_
+    bad, n_stop = stop_completions(False)
     inst = "StopEngineCommand._run: hardware holds the safe values when Stop completes"
     if n_stop == 0:
         raise AnchorError("no completing Stop found in the model")
@@ -96,6 +109,16 @@ def run(ctx) -> None:
     else:
         ctx.fail("R08b", stop, stop.node, inst, f"Stop completes with hardware={sd(bad[1])['hw']}: safe state not written before the run "
                  f"ends | history: {' > '.join(ex.trace(bad[0]))}")
+    bad2, n2 = stop_completions(True)
+    inst = "StopEngineCommand._run: the safe values are on the hardware when Stop completes - also when the write of them fails"
+    if bad is None and bad2 is not None:
+        ctx.fail("R08b", stop, stop.node, inst, "Stop ends the run after a single write_process_image() whose failure it cannot see (the "
+                 "HardwareLayerException is handled inside write_process_image by set_error_state) and clears _runstate_started right after: "
+                 "from then on write_process_image returns early, so the safe values are never written - one transient write failure in the "
+                 f"tick that completes Stop leaves the outputs live with no run active (hardware={sd(bad2[1])['hw']}, System State Paused by "
+                 f"the error) | history: {' > '.join(ex.trace(bad2[0]))} > tick[Stop ends, write fails]")
+    elif bad is None:
+        ctx.ok("R08b", inst, {"rule": "R08b", "completions_checked": n2})
     # writes only under started
     n_w = 0
     for m in prog.iter_modules():
